@@ -91,7 +91,12 @@ def worker_histories(rp, seed, tier):
     return worker_sim.run_accounting(rp, tier, seed)
 
 
-CHECKS = {'worker-histories': worker_histories, 'worker-dispatch': worker_dispatch, 'node-files': node_files, 'pilot-sizing': pilot_sizing, 'slot-formats': slot_formats, 'wait-calls': wait_calls, 'sched-histories': sched_histories, 'bf-histories': bf_histories, 'lm-placements': lm_placements,
+def app_placements(rp, seed, tier):
+    from harness import app_sim
+    return app_sim.run_all(rp, tier, seed)
+
+
+CHECKS = {'app-placements': app_placements, 'worker-histories': worker_histories, 'worker-dispatch': worker_dispatch, 'node-files': node_files, 'pilot-sizing': pilot_sizing, 'slot-formats': slot_formats, 'wait-calls': wait_calls, 'sched-histories': sched_histories, 'bf-histories': bf_histories, 'lm-placements': lm_placements,
           'staging-e2e': staging_e2e, 'task-scripts': task_scripts}
 
 
